@@ -165,7 +165,7 @@ def run(tier):
     I3, o3 = run_entry(prog, AUTOMATA_UNIT, 'band_choose_hello_time', lambda I, st: mk_band(st), engine=E2, name='band_choose_hello_time')
     collect_failures(rep, I3, 'R13.ub')
     cnode = ix.functions['band_choose_hello_time']
-    for fn, node, op, ty, d in E2.wraps:
+    for fn, node, op, ty, d, _inv in E2.wraps:
         rep.fail('R13.4', 'band_choose_hello_time|wrap|%s' % op, 'unsigned %s arithmetic may wrap in the interval computation: %s' % (op, d), node=node, function=fn)
     num = B['TXC'] * 20
     den = 3 * B['GAMMA']
